@@ -1226,3 +1226,88 @@ func loopDeliverAll(rep *Report, inputs []loopInput, instances int) {
 	}
 	wg.Wait()
 }
+
+// loopAuthorityCheck (C10 at transaction level): every discovered orbiter Msg RPC in real signed transactions — signed
+// and named by somebody else; named as the authority but signed by somebody else (the ante handler must refuse); signed
+// by the authority (must succeed, except where noted). A refused transaction must leave every store a transaction-free
+// block does not touch unchanged.
+func loopAuthorityCheck(rep *Report, rpcs []rpcInfo, valid map[string]MsgSpec) error {
+	lw, err := NewLoopWorld()
+	if err != nil {
+		return err
+	}
+	if !lw.AuthOK {
+		rep.Count("loop_authority_key_unavailable", 1)
+		return nil
+	}
+	auth, _ := sdk.AccAddressFromBech32(lw.Authority)
+	mk := func(o Op) sdk.Msg { m, _ := o.Msg.Build(); return m }
+	// a state in which every valid body is applicable (things to unpause exist)
+	for _, o := range []Op{lw.OpPauseProtocol("PROTOCOL_CCTP"), lw.OpPauseCC("PROTOCOL_CCTP", "0"), lw.OpPauseAction("ACTION_FEE")} {
+		if ob, err := lw.RunAdmin(auth, true, mk(o)); err != nil || ob.Code != 0 {
+			return fmt.Errorf("authority set-up transaction %s failed: %v %s", o.Label, err, ob.Log)
+		}
+	}
+	for _, ri := range rpcs {
+		vs, ok := valid[ri.Method]
+		if !ok || ri.GoType == nil {
+			continue
+		}
+		vs.Signer = "x"
+		body, err := vs.Build()
+		if err != nil {
+			continue
+		}
+		label := ri.Service + "/" + ri.Method
+		try := func(kind string, signer sdk.AccAddress, named string, wantOK *bool) error {
+			pre := lw.storeHashes(lw.Ctx)
+			tx, err := lw.Tx(signer, setSigner(body, ri, named))
+			if err != nil {
+				return err
+			}
+			rs, err := lw.Block(tx)
+			if err != nil {
+				return err
+			}
+			if rs[0].Code != 0 {
+				lw.resyncSeq(signer)
+			}
+			rep.Count("evaluations", 1)
+			rep.Count("real_transactions", 1)
+			sig := "real tx: " + label + " " + kind
+			replay := mustJSON(map[string]any{"rpc": label, "real_tx": kind})
+			if wantOK != nil && !*wantOK {
+				if rs[0].Code == 0 {
+					rep.Violate(Violation{Kind: "non-authority-accepted", Group: ri.Method + " " + kind, Sig: sig, Replay: replay,
+						What: fmt.Sprintf("a real transaction with %s (%s) SUCCEEDED: %s", label, kind, trunc(rs[0].Log, 200))})
+				} else if d := lw.quietDiff(pre, lw.storeHashes(lw.Ctx)); len(d) > 0 {
+					rep.Violate(Violation{Kind: "refused-but-state-changed", Group: ri.Method, Sig: sig, Replay: replay, What: fmt.Sprintf("the refused transaction (%s, %s) changed stores %v", label, kind, d)})
+				} else {
+					rep.Outcome("real-tx-non-authority-refused")
+				}
+			}
+			if wantOK != nil && *wantOK {
+				if rs[0].Code != 0 {
+					rep.Violate(Violation{Kind: "authority-refused", Group: ri.Method, Sig: sig, Replay: replay, What: fmt.Sprintf("the authority's signed transaction with a valid %s failed: code %d %s", label, rs[0].Code, trunc(rs[0].Log, 300))})
+				} else {
+					rep.Outcome("real-tx-authority-succeeded")
+				}
+			}
+			return nil
+		}
+		no, yes := false, true
+		if err := try("signed and named by another account", lw.Mallory, lw.Mallory.String(), &no); err != nil {
+			return err
+		}
+		if err := try("naming the authority, signed by another account", lw.Mallory, lw.Authority, &no); err != nil {
+			return err
+		}
+		if ri.Method == "ReplaceDepositForBurn" {
+			continue // its valid body needs a burn message of THIS chain; the authorised half is covered at handler level
+		}
+		if err := try("signed by the authority", auth, lw.Authority, &yes); err != nil {
+			return err
+		}
+	}
+	return nil
+}
